@@ -87,7 +87,8 @@ ITEMS = location_types() + budget_types() + error_types() + [
          canaries=['every_open_frame_one_deeper']),
 
     dict(src=L, path='impl LiveEvents/fn ensure_anchor_capacity', props=['C02', 'C01'],
-         rewrites=[(r'self\.anchors\.resize_with\(anchor_id \+ 8, \|\| None\)', 'vec_resize_none(&mut self.anchors, anchor_id + 8)', None, 'R8')],
+         rewrites=[(r'self\.anchors\.resize_with\(([^,;]+), \|\| None\)', r'vec_resize_none(&mut self.anchors, \1)', None, 'R8'),
+                   (r'\(self\.anchors\.len\(\) \* 2\)\.max\(8\)', '(if self.anchors.len() * 2 >= 8 { self.anchors.len() * 2 } else { 8 })', None, 'R8')],
          requires=[('anchor_ids_are_small', 'anchor_id <= usize::MAX - 8')],
          ensures=[('slot_exists_nothing_lost', 'anchor_id < final(self).anchors@.len() && anchors_grown(old(self).anchors@, final(self).anchors@)'),
                   ('frame', 'final(self).same_but_rec_and_anchors(old(self)) && final(self).rec_stack == old(self).rec_stack')],
@@ -266,6 +267,7 @@ ITEMS = location_types() + budget_types() + error_types() + [
          }),
     dict(src=L, path='impl LiveEvents/fn observe_budget_for_replay', props=['C07', 'C08', 'C01'],
          rewrites=[(r'Cow::Borrowed\(value\)', 'cowstr_borrow(value)', None, 'R8'),
+                   (r'Cow::Borrowed\(("[^"]*")\)', r'cowstr_of_literal(\1)', None, 'R8'),
                    (r'budget\s*\.observe\(&raw\)\s*\.map_err\(\|breach\| budget_error\(breach\)\.with_location\(ev\.location\(\)\)\)',
                     '(match budget.observe(&raw) { Ok(__v) => Ok(__v), Err(breach) => Err(budget_error(breach).with_location(ev.location())) })', None, 'R18')],
          requires=[('enforcer_consistent', '''old(self).budget is Some ==> {
@@ -473,7 +475,7 @@ ITEMS = location_types() + budget_types() + error_types() + [
     # the two in-line copies of the leftover check in src/lib.rs (single-document string and reader entry points),
     # lifted as statement fragments (R26): same obligation as enforce_single_document_and_finish
     dict(src='src/lib.rs', path='fn from_str_with_options_impl', id='from_str_with_options_impl#leftover_check',
-         fragment=r'match src\.peek\(\) \{.*?src\.finish\(\)\s*\.map_err\(\|e\| maybe_with_snippet\(e, input, with_snippet, crop_radius\)\)\?;',
+         fragment=r'(?:let \w+ = src\.last_location\(\);\s*)?match src\.peek\(\) \{.*?src\.finish\(\)\s*\.map_err\(\|e\| maybe_with_snippet\(e, input, with_snippet, crop_radius\)\)\?;',
          fragment_flags='S',
          wrapper="fn from_str_leftover_check_fragment<'a>(src: &mut LiveEvents<'a>, input: &str, with_snippet: bool, crop_radius: usize, value: DocVal) -> Result<DocVal, Error> { {FRAG} Ok(value) }",
          props=['C05', 'C11', 'C09', 'C10', 'C01'],
@@ -485,7 +487,7 @@ ITEMS = location_types() + budget_types() + error_types() + [
                   ('C10:a_value_is_returned_only_after_finish_found_no_stored_reader_error', 'r is Ok ==> final(src).error.content() is None')],
          canaries=['C05:nothing_may_be_left_after_the_root_value']),
     dict(src='src/lib.rs', path='fn from_reader_with_options', id='from_reader_with_options#leftover_check',
-         fragment=r'match src\.peek\(\) \{.*?if let Err\(e\) = src\.finish\(\) \{\s*return Err\(attach_snippet\(e\)\);\s*\}',
+         fragment=r'(?:let \w+ = src\.last_location\(\);\s*)?match src\.peek\(\) \{.*?if let Err\(e\) = src\.finish\(\) \{\s*return Err\(attach_snippet\(e\)\);\s*\}',
          fragment_flags='S',
          wrapper="fn from_reader_leftover_check_fragment<'a>(src: &mut LiveEvents<'a>, value: DocVal) -> Result<DocVal, Error> { {FRAG} Ok(value) }",
          props=['C05', 'C11', 'C09', 'C10', 'C01'],
@@ -660,7 +662,7 @@ _LEFT_ENS = [('C05:nothing_may_be_left_after_the_root_value', 'r is Ok ==> old(s
              ('C10:a_value_is_returned_only_after_finish_found_no_stored_reader_error', 'r is Ok ==> final(src).error.content() is None')]
 ITEMS += [
     dict(src='src/lib.rs', path='fn from_str_with_options_and_path_recorder', id='from_str_with_options_and_path_recorder#leftover_check',
-         fragment=r'match src\.peek\(\) \{.*?src\.finish\(\)\s*\.map_err\(\|e\| maybe_with_snippet\(e, input, with_snippet, crop_radius\)\)\?;',
+         fragment=r'(?:let \w+ = src\.last_location\(\);\s*)?match src\.peek\(\) \{.*?src\.finish\(\)\s*\.map_err\(\|e\| maybe_with_snippet\(e, input, with_snippet, crop_radius\)\)\?;',
          fragment_flags='S',
          wrapper="fn from_str_recorded_leftover_check_fragment<'a>(src: &mut LiveEvents<'a>, input: &str, with_snippet: bool, crop_radius: usize, value: DocVal) -> Result<DocVal, Error> { {FRAG} Ok(value) }",
          props=['C05', 'C11', 'C09', 'C10', 'C01'],
@@ -672,7 +674,7 @@ ITEMS += [
 for _fn, _hint in (('from_reader_with_options_valid', 'use read_valid or read_with_options_valid to obtain the iterator'),
                    ('from_reader_with_options_validate', 'use read_validate or read_with_options_validate to obtain the iterator')):
     ITEMS.append(dict(src='src/lib.rs', path='fn ' + _fn, id=_fn + '#leftover_check',
-         fragment=r'match src\.peek\(\) \{.*?src\.finish\(\)\?;', fragment_flags='S',
+         fragment=r'(?:let \w+ = src\.last_location\(\);\s*)?match src\.peek\(\) \{.*?src\.finish\(\)\?;', fragment_flags='S',
          wrapper="fn %s_leftover_check_fragment<'a>(src: &mut LiveEvents<'a>, value: DocVal) -> Result<DocVal, Error> { {FRAG} Ok(value) }" % _fn,
          props=['C05', 'C11', 'C09', 'C10', 'C01'],
          rewrites=[(r'Error::multiple_documents\(\s*"%s",?\s*\)' % re.escape(_hint), 'error_multiple_documents("%s")' % _hint, None, 'R8')],
@@ -710,3 +712,17 @@ ITEMS += [
                 && r.ignore_binary_tag_for_string == options.ignore_binary_tag_for_string && r.no_schema == options.no_schema''')],
          canaries=['C09:the_configuration_is_the_options_field_for_field']),
 ]
+
+# the "multiple documents" error of the leftover checks: its location must be read AFTER the probe (`src.peek()`), where every
+# entry point reads it; the error expression is hoisted into a local so that the obligation can speak about it
+_MD_HOIST = [(r'return Err\(attach_snippet\(\s*error_multiple_documents\(("[^"]*")\)\s*\.with_location\(([^;]*?)\),?\s*\)\);',
+              r'let __md = error_multiple_documents(\1).with_location(\2); return Err(attach_snippet(__md));', None, 'R18'),
+             (r'return Err\(error_multiple_documents\(\s*("[^"]*"),?\s*\)\s*\.with_location\(([^;]*?)\)\);',
+              r'let __md = error_multiple_documents(\1).with_location(\2); return Err(__md);', None, 'R18'),
+             (r'let err = error_multiple_documents\(("[^"]*")\)\s*\.with_location\(([^;]*?)\);', r'let __md = error_multiple_documents(\1).with_location(\2); let err = __md;', None, 'R18')]
+_MD_PROOF = dict(after_re=r'let __md = error_multiple_documents\([^;]*;', label='C09:a_following_document_is_reported_where_the_probe_for_it_stopped_as_by_every_entry_point',
+                 text='assert(__md is MultipleDocuments && __md->MultipleDocuments_location == src.last_location);')
+for _it in ITEMS:
+    if _it and str(_it.get('id', '')).endswith('#leftover_check'):
+        _it['rewrites'] = list(_it.get('rewrites', [])) + _MD_HOIST
+        _it['proofs'] = list(_it.get('proofs', [])) + [_MD_PROOF]
